@@ -564,6 +564,11 @@ func (it *Interp) performEval(n *Node, ctx *execCtx, direct bool) Value {
 			}
 		}
 	}
+	// every eval call parses its source text anew: its template sites (also those of the functions it declares) are new sites
+	savedEpoch := it.epoch
+	it.epochs++
+	it.epoch = it.epochs
+	defer func() { it.epoch = savedEpoch }()
 	it.createLexBindings(d, lexEnv)
 	ectx := &execCtx{lex: lexEnv, varEnv: varEnv, strict: strict, fn: ctx.fn}
 	if !direct {
@@ -579,11 +584,6 @@ func (it *Interp) performEval(n *Node, ctx *execCtx, direct bool) Value {
 		it.evalActive++
 		defer func() { it.evalActive-- }()
 	}
-	// every eval call parses its source text anew: its template sites are new sites
-	savedEpoch := it.epoch
-	it.epochs++
-	it.epoch = it.epochs
-	defer func() { it.epoch = savedEpoch }()
 	c := it.evalStmts(n.L, ectx)
 	if c.t == cThrow {
 		panic(&Thrown{c.v})
